@@ -146,3 +146,14 @@ pub fn control_code_from(x: u8) -> crate::app::control::ControlCode {
 pub fn control_code_as_u8(c: crate::app::control::ControlCode) -> u8 {
     c.as_u8()
 }
+
+/// representative payloads of error variants whose payload types cannot be built from outside the crate
+pub fn some_object_parse_error() -> crate::app::ObjectParseError {
+    crate::app::ObjectParseError::InsufficientBytes
+}
+pub fn some_bad_encoding() -> crate::master::BadEncoding {
+    crate::master::BadEncoding::Attribute(crate::app::attr::BadAttribute::BadLength(300))
+}
+pub fn some_link_error() -> crate::link::error::LinkError {
+    crate::link::error::LinkError::Stdio(std::io::ErrorKind::BrokenPipe)
+}
